@@ -37,6 +37,7 @@ def main(tier, replay=None):
         dict(name="restart-message-in-last-split-directory", opts=[M, "msgs=r1", "verdicts=KZ", "reorder=1", "bucket=22"], bounds="0,0,0,%d" % (3 if q else 4), total=4),
         dict(name="restart-message-in-first-split-directory", opts=[M, "msgs=l1", "verdicts=KZ", "reorder=1", "bucket=0"], bounds="0,0,0,%d" % (3 if q else 4), total=4),
         dict(name="deferred-restart-with-one-failing-call", opts=["monitors=C15", "msgs=l1r1", "verdicts=ZKT", "reorder=1", "concl=2"] + (["maxticks=4", "signals=2"] if q else ["maxticks=6", "signals=2"]), bounds="0,1,0,2", total=3),
+        dict(name="clock-set-back-while-stopped", opts=["monitors=C15", "msgs=l1r1", "verdicts=ZK", "reorder=1", "clockback=1", "maxticks=%d" % (4 if q else 6)], bounds="0,0,0,%d" % (3 if q else 4), total=4),
         dict(name="two-messages-order", opts=[M, "msgs=l1+r1b", "verdicts=KZ", "reorder=2", "signals=0"], bounds="0,0,0,%d" % (3 if q else 5), total=5),
     ]
     for f in fams:
@@ -46,7 +47,11 @@ def main(tier, replay=None):
                 "'> now'; prioq: DFS over every insert/delmin sequence up to the depth over the key values on the real heap, checking after "
                 "every operation that prioq_min is an earliest-due element that is present (states = distinct heap arrays reached, "
                 "transitions = operations applied); every insertion order of n distinct keys drained by delmin" % top)
+    res.rule += ("; daemon level (VK): histories of the real qmail-send under the virtual clock, deviations bounded as in C03: back-off and expiry families "
+                 "(%s), restarts with messages in the first/last split directory, every attempt deferred by default with one failing call, and the clock "
+                 "set back two hours while the daemon is stopped (births in the future: such a message is young, not expired); monitors: no pass before the back-off time, "
+                 "deferrals never marked done before the lifetime, ALRM honoured, earliest first" % ", ".join(f["name"] for f in fams))
     res.assumptions = ["ages >= 2^32 s (136 years) are outside the statement", "daemon histories: real qmail-send under the virtual kernel and clock; monitors: no new pass for a deferred message before birth+(isqrt(age)+10|20)^2 unless ALRM or an unclean restart intervened, the daemon never sleeps past the earliest due time, a deferral of an unexpired message never finishes a recipient, an expired one does"]
-    res.require_nonzero("evaluations", "states", "transitions", "passes_started", "reports_Z", "ticks", "expired_deferrals", "signal_ALRM", "clean_stops")
+    res.require_nonzero("evaluations", "states", "transitions", "passes_started", "reports_Z", "ticks", "expired_deferrals", "signal_ALRM", "clean_stops", "clock_set_back")
     lib_conformance(res, rd, src, ['num'], tier, asan=True)
     return res.finish()
